@@ -115,13 +115,28 @@ def run(ctx):
              ('sa-coarse-gs', lambda A: pyamg.smoothed_aggregation_solver(A, coarse_solver='gauss_seidel', max_coarse=6), 'sym'),
              ('rs-coarse-jacobi', lambda A: pyamg.ruge_stuben_solver(sp.csr_array(A), coarse_solver=('jacobi', {'iterations': 5}), max_coarse=6), 'sym'),
              ('rootnode-coarse-bgs', lambda A: pyamg.rootnode_solver(A, coarse_solver='block_gauss_seidel', max_coarse=6), 'sym'),
-             ('pairwise-default', lambda A: pyamg.pairwise_solver(sp.csr_array(A), max_coarse=4), 'sym')]
+             ('pairwise-default', lambda A: pyamg.pairwise_solver(sp.csr_array(A), max_coarse=4), 'sym'),
+             # smoothers whose weights come from a spectral-radius estimate (random start vector)
+             ('sa-jacobi-smoother', lambda A: pyamg.smoothed_aggregation_solver(
+                 A, presmoother=('jacobi', {'omega': 4.0 / 3.0}), postsmoother=('jacobi', {'omega': 4.0 / 3.0}), max_coarse=3), 'sym'),
+             ('rs-richardson-smoother', lambda A: pyamg.ruge_stuben_solver(
+                 sp.csr_array(A), presmoother='richardson', postsmoother='richardson', max_coarse=3), 'sym'),
+             ('sa-chebyshev-smoother', lambda A: pyamg.smoothed_aggregation_solver(
+                 A, presmoother=('chebyshev', {'degree': 2}), postsmoother=('chebyshev', {'degree': 2}), max_coarse=3), 'sym'),
+             ('sa-block-jacobi-smoother', lambda A: pyamg.smoothed_aggregation_solver(
+                 A, presmoother='block_jacobi', postsmoother='block_jacobi', max_coarse=3), 'sym')]
     bsr_m = [m for m in mats if sp.issparse(m[1]) and m[1].format == 'bsr'][:1]
     for ei, eb in enumerate(extra):
         if eb[2] == 'sym':
             items += [(eb, m) for m in (real[:2] if ei < 6 else [real[ei % len(real)]] + (bsr_m if 'block' in eb[0] or ei % 3 == 0 else []))]
         else:
             items.append((eb, ('upwind-6x6', hier.nonsym_matrix(6))))
+    # the first real problem in other units (entries ~1e-18 and ~1e18): nothing of the user's matrix may be rounded away
+    from pyamg.gallery import poisson as _pois
+    Pbase = sp.csr_array(_pois((6, 5), format='csr'))
+    for sc, tag in ((2.0 ** -60, '*2^-60'), (2.0 ** 60, '*2^60')):
+        for b_ in [b for b in hier.builders() if b[0] in ('rs', 'sa', 'rootnode', 'pairwise')]:
+            items.append((b_, ('poisson2d-6x5' + tag, sp.csr_array(Pbase * sc))))
     for (bname, f, kind), (mname, A) in items:
         base = dict(builder=bname, matrix=mname)
         ctx.mark(base)
@@ -200,53 +215,61 @@ def formats(ctx):
     """the same matrix in any sparse format or dense gives the same hierarchy"""
     import pyamg
     from pyamg.gallery import poisson
-    P = sp.csr_array(poisson((6, 5), format='csr'))
-    B = np.ones((30, 1))
-    for bname, f in (('classical', lambda M: pyamg.ruge_stuben_solver(M, max_coarse=3)),
-                     ('sa', lambda M: pyamg.smoothed_aggregation_solver(M, B=B.copy(), max_coarse=3)),
-                     ('rootnode', lambda M: pyamg.rootnode_solver(M, B=B.copy(), max_coarse=3)),
-                     ('pairwise', lambda M: pyamg.pairwise_solver(M, max_coarse=3)),
-                     ('air', lambda M: pyamg.air_solver(M, max_coarse=3))):
-        ref = None
-        for fmt in ('csr', 'csc', 'coo', 'lil', 'dia', 'bsr', 'dense', 'csr-unsorted'):
-            if fmt == 'csr-unsorted':
-                from .. import gen as _gen
-                M = _gen.unsorted_copy(P, ctx.sub('unsorted-' + bname))       # CSR with shuffled column order in each row
-            else:
-                M = P.toarray() if fmt == 'dense' else P.asformat(fmt)
-            keep = P.toarray().copy()
-            Bk = B.copy()
-            case = dict(builder=bname, format=fmt)
-            ctx.mark(case)
-            np.random.seed(ctx.seed + 2)
-            try:
-                with warnings.catch_warnings():
-                    warnings.simplefilter('ignore')
-                    ml = f(M)
-            except Exception as e:   # noqa
-                ctx.count('format-unsupported:%s/%s' % (bname, fmt))
-                continue
-            ctx.case(('format', bname, fmt), True)
-            ctx.count('format:' + fmt)
-            now = M if fmt == 'dense' else M.toarray()
-            if _nn(np.abs(now - keep).max()) > 0 or _nn(np.abs(B - Bk).max()) > 0:
-                ctx.fail('setup-modifies-input/%s/%s' % (bname, fmt), 'numerical content of A or B changed', case)
-            sizes = [L.A.shape[0] for L in ml.levels]
-            dense = [hier.dense_of(L.A) for L in ml.levels]
-            if ref is None:
-                ref = (sizes, dense, fmt)
-                continue
-            if fmt == 'csr-unsorted':
-                # aggregation visits neighbours in storage order, so another (equally valid) hierarchy may result: only
-                # setup purity is claimed for this storage variant
-                continue
-            if sizes != ref[0]:
-                ctx.fail('format-dependent-hierarchy/' + bname, '%s gives level sizes %s, %s gives %s' % (fmt, sizes, ref[2], ref[0]), case)
-            else:
-                for l, (a, b_) in enumerate(zip(dense, ref[1])):
-                    if _nn(np.abs(a - b_).max()) > 1e-12 * (1 + np.abs(b_).max()):
-                        ctx.fail('format-dependent-hierarchy/' + bname, 'level %d matrix differs between %s and %s' % (l, fmt, ref[2]), case)
-                        break
+    P0 = sp.csr_array(poisson((6, 5), format='csr'))
+    u_ = np.exp(1j * 0.4 * np.arange(30))
+    variants = [('float64', P0, np.ones((30, 1))),
+                ('float32', sp.csr_array(P0.astype(np.float32)), np.ones((30, 1), dtype=np.float32)),
+                ('complex128', sp.csr_array(sp.diags_array(u_) @ P0 @ sp.diags_array(u_.conj())), u_.reshape(-1, 1).copy())]
+    for vname, P, B in variants:
+      for bname, f in (('classical', lambda M: pyamg.ruge_stuben_solver(M, max_coarse=3)),
+                       ('sa', lambda M: pyamg.smoothed_aggregation_solver(M, B=B.copy(), max_coarse=3)),
+                       ('rootnode', lambda M: pyamg.rootnode_solver(M, B=B.copy(), max_coarse=3)),
+                       ('pairwise', lambda M: pyamg.pairwise_solver(M, max_coarse=3)),
+                       ('air', lambda M: pyamg.air_solver(M, max_coarse=3))):
+          ref = None
+          for fmt in ('csr', 'csc', 'coo', 'lil', 'dia', 'bsr', 'dense', 'csr-unsorted'):
+              if fmt == 'csr-unsorted':
+                  from .. import gen as _gen
+                  M = _gen.unsorted_copy(P, ctx.sub('unsorted-' + bname))       # CSR with shuffled column order in each row
+              else:
+                  M = P.toarray() if fmt == 'dense' else P.asformat(fmt)
+              keep = P.toarray().copy()
+              Bk = B.copy()
+              case = dict(builder=bname, format=fmt, dtype=vname)
+              ctx.mark(case)
+              np.random.seed(ctx.seed + 2)
+              try:
+                  with warnings.catch_warnings():
+                      warnings.simplefilter('ignore')
+                      ml = f(M)
+              except Exception as e:   # noqa
+                  ctx.count('format-unsupported:%s/%s' % (bname, fmt))
+                  continue
+              ctx.case(('format', bname, fmt, vname), True)
+              ctx.count('format:' + fmt)
+              now = M if fmt == 'dense' else M.toarray()
+              if _nn(np.abs(now - keep).max()) > 0 or _nn(np.abs(B - Bk).max()) > 0:
+                  ctx.fail('setup-modifies-input/%s/%s' % (bname, fmt), 'numerical content of A or B changed', case)
+              dts = [str(L.A.dtype) for L in ml.levels]
+              if ref is not None and fmt != 'csr-unsorted' and dts != ref[3]:
+                  ctx.fail('format-dependent-hierarchy/%s/dtype' % bname, 'input dtype %s: format %s gives level dtypes %s, %s gives %s'
+                           % (P.dtype, fmt, dts, ref[2], ref[3]), case)
+              sizes = [L.A.shape[0] for L in ml.levels]
+              dense = [hier.dense_of(L.A) for L in ml.levels]
+              if ref is None:
+                  ref = (sizes, dense, fmt, dts)
+                  continue
+              if fmt == 'csr-unsorted':
+                  # aggregation visits neighbours in storage order, so another (equally valid) hierarchy may result: only
+                  # setup purity is claimed for this storage variant
+                  continue
+              if sizes != ref[0]:
+                  ctx.fail('format-dependent-hierarchy/' + bname, '%s gives level sizes %s, %s gives %s' % (fmt, sizes, ref[2], ref[0]), case)
+              else:
+                  for l, (a, b_) in enumerate(zip(dense, ref[1])):
+                      if _nn(np.abs(a - b_).max()) > (1e-12 if vname != 'float32' else 1e-5) * (1 + np.abs(b_).max()):
+                          ctx.fail('format-dependent-hierarchy/' + bname, 'level %d matrix differs between %s and %s' % (l, fmt, ref[2]), case)
+                          break
     ctx.corr_relations = ['observed solve after a random history == same solve on a fresh solver (bit-identical)',
                           'attributes created by solving are a subset of the modelled caches; level operators byte-identical']
 
